@@ -87,7 +87,7 @@ const zzNPos = 22
 
 // zzInject appends suffix to configuration string position pos.
 func zzInject(conf *config.Root, pos int, sfx string) string {
-	m := &conf.Integrations[1]
+	m := &conf.Integrations[len(conf.Integrations)-1]
 	switch pos {
 	case 0:
 		m.Name += sfx
@@ -178,6 +178,14 @@ func ZZ_C15_Inject(pos, path, disabled int) {
 	if disabled == 1 {
 		conf.Integrations[1].Enabled = false
 	}
+	if disabled == 2 {
+		// an earlier, harmless integration writes to the same table as the
+		// one carrying the hostile string (the table definition is their union)
+		sharer := config.Integration{Name: "sharer", Enabled: true, Sources: []config.Source{{Name: "s1"}},
+			Table: wpg.Table{Name: "tm", Columns: []wpg.Column{{Name: "c_a", Type: "bytea"}}},
+			Event: dig.Event{Name: "S", Type: "event", Inputs: []dig.Input{{Name: "a", Type: "address", Indexed: true, Column: "c_a"}}}}
+		conf.Integrations = []config.Integration{conf.Integrations[0], sharer, conf.Integrations[1]}
+	}
 	what := zzInject(&conf, pos, string([]byte{c}))
 	zzvrf.Event("position: " + what)
 	var verr error
@@ -207,9 +215,9 @@ func ZZ_C15_Inject(pos, path, disabled int) {
 		rec.texts = append(rec.texts, stmt)
 	}
 	_ = config.Migrate(ctx, rec, conf)
-	if disabled == 1 {
+	if disabled >= 1 {
 		// a disabled integration is not loaded as a task: only the schema
-		// statements above are built from it
+		// statements above are built from it (shared-table variant: only they are looked at)
 		zzvrf.Assert(len(rec.texts) > 2, "sql-builders-exercised")
 		safe := zzSafeByte(c)
 		for _, s := range rec.texts {
